@@ -25,7 +25,12 @@ for k, v in res.items():
 out += ["", f"{nd} of {len(res)} detected. Not detected, and why:", "",
 "* C01 'charstring stack limit removed': without the limit the decoder's operand stack",
 "  simply grows with the charstring (bounded by its length); nothing crashes or hangs, so",
-"  C01 is not violated — an equivalent mutant for this property.", ""]
+"  C01 is not violated — an equivalent mutant for this property.",
+"* C12 'peekReader replays its byte twice' (`if len(b) > 1 { r.buf = r.buf[k:] }`): the only",
+"  caller of the peek reader inside the library is the scanner, which always reads with its",
+"  512-byte buffer, so the changed branch (caller buffer of one byte) is unreachable through",
+"  type1.Read — behaviour is unchanged. (The seeded change C12-B breaks the same function",
+"  reachably and is caught.)", ""]
 out += ["The builders' own mutation tables (another ~150 mutants, all but a few equivalent ones",
 "detected) are next to the drivers: cmd/c04 … cmd/c10, cmd/c15, cmd/c16, cmd/c19, cmd/c20",
 "`SELFTEST.md`.", "",
